@@ -295,7 +295,7 @@ def _pad_face_connections(
                             coords="minimal",
                             compat="override",
                             join="override",
-                        )
+                        ).rename(target_slice.name)
                         # TODO: Can we do this with an assignment in xarray? Maybe not important yet.
         faces.append(target_da)
 
